@@ -2,7 +2,6 @@ package rules
 
 import (
 	"go/token"
-	"strings"
 
 	"golang.org/x/tools/go/ssa"
 
@@ -15,10 +14,10 @@ func init() {
 }
 
 func runC39(p *core.Prog, r *core.Report) {
-	r.Explain = "Decides the narrowing and rounding-direction clauses structurally: (R1) every narrowing (*big.Int).Int64() of a converted amount is dominated by IsInt64()==true, or the conversion provably only divides; (R2) convert multiplies only when precision increases and divides (rounding toward zero, never up) when it decreases; toTarget / toBase pass the right direction; Cross-reference only (outside the property's precision range 0..18): the factor is computed as int64(math.Pow10(exp)), which does not fit for a precision difference of 19 or more. Not covered: 'never yields more than the original' for every int64 (arithmetic over all values)."
+	r.Explain = "Decides the narrowing and rounding-direction clauses structurally: (R1) every narrowing (*big.Int).Int64() of a converted amount is dominated by IsInt64()==true, or the conversion provably only divides; (R2) the conversion multiplies only when precision increases and divides when it decreases; toTarget / toBase pass the right direction; (R3) the narrowing division is big.Int's Euclidean Div, which rounds down for every sign (a truncating division would round a negative amount up), and products are not formed in a fixed-width type; Cross-reference only (outside the property's precision range 0..18): the factor is computed as int64(math.Pow10(exp)), which does not fit for a precision difference of 19 or more. Not covered: 'never yields more than the original' for every int64 (arithmetic over all values)."
 	fns := p.FuncsIn("pkg/util/precision")
 	// ---------------- R1 narrowing
-	r1 := r.Rule("C39.R1", "Int64() of a converted amount only after IsInt64(), or when the conversion only divides", 2)
+	r1 := r.Rule("C39.R1", "Int64() of a converted amount only after IsInt64(), or when the conversion only divides", 1)
 	n := 0
 	for _, s := range core.CallSites(fns, func(s core.Site) bool { return s.Name == "(*math/big.Int).Int64" }) {
 		n++
@@ -34,23 +33,67 @@ func runC39(p *core.Prog, r *core.Report) {
 		}
 		r1.Bad(key, p.InstrPos(site), "the converted amount is narrowed with Int64() without an IsInt64() test: when the conversion multiplies (target precision above the source) the product can exceed int64 and the low 64 bits are returned")
 	}
-	if n < 2 {
-		r.Fatalf("C39.R1: %d Int64() narrowings found, expected 2", n)
+	if n == 0 {
+		r1.OKTrivial("precision#no-big.Int-narrowing", "-", "no big.Int narrowing in the package (fixed-width arithmetic is judged by R3)")
 	}
-	// ---------------- R2 direction
+	// ---------------- R2 direction (name-agnostic: any function of the package that both multiplies and divides under a bool parameter)
 	r2 := r.Rule("C39.R2", "multiply only when precision increases, divide otherwise; direction flags of toTarget/toBase", 4)
-	if cv := p.Func("pkg/util/precision.convert"); cv == nil {
-		r.Fatalf("C39.R2: convert not found")
-	} else {
-		dec := core.Guard{Name: "decreasing", Comps: []core.Comp{{Result: -1, Kind: core.IsTrue}}, Pure: true, Value: func(fn *ssa.Function, v ssa.Value) bool { return core.ParamIndex(fn, v) == 2 }}
-		inc := core.Guard{Name: "increasing", Comps: []core.Comp{{Result: -1, Kind: core.IsFalse}}, Pure: true, Value: func(fn *ssa.Function, v ssa.Value) bool { return core.ParamIndex(fn, v) == 2 }}
-		core.CheckEffectsFn(p, r2, cv, core.EffectRule{Min: 2, Guards: []core.Guard{dec, inc}, Effect: core.CallTo("(*math/big.Int).Div", "(*math/big.Int).Mul", "(*math/big.Int).Quo"),
-			Need: func(d string) []string {
-				if strings.HasSuffix(d, ".Mul") {
-					return []string{"increasing"}
-				}
-				return []string{"decreasing"}
-			}})
+	isMul := func(in ssa.Instruction) bool {
+		if c, ok := in.(ssa.CallInstruction); ok && core.CalleeName(c) == "(*math/big.Int).Mul" {
+			return true
+		}
+		bo, ok := in.(*ssa.BinOp)
+		return ok && bo.Op == token.MUL && isInt(bo.Type())
+	}
+	isDiv := func(in ssa.Instruction) bool {
+		if c, ok := in.(ssa.CallInstruction); ok {
+			switch core.CalleeName(c) {
+			case "(*math/big.Int).Div", "(*math/big.Int).Quo", "(*math/big.Int).DivMod", "(*math/big.Int).QuoRem":
+				return true
+			}
+		}
+		bo, ok := in.(*ssa.BinOp)
+		return ok && bo.Op == token.QUO && isInt(bo.Type())
+	}
+	convFns := map[*ssa.Function]int{} // conversion function -> index of its bool parameter
+	for _, fn := range fns {
+		hasM, hasD := false, false
+		for _, b := range fn.Blocks {
+			for _, in := range b.Instrs {
+				hasM = hasM || isMul(in)
+				hasD = hasD || isDiv(in)
+			}
+		}
+		if !hasM || !hasD {
+			continue
+		}
+		for i, prm := range fn.Params {
+			if prm.Type().String() == "bool" {
+				convFns[fn] = i
+			}
+		}
+	}
+	if len(convFns) == 0 {
+		r.Fatalf("C39.R2: no conversion function (multiply/divide under a bool parameter) found in the package")
+	}
+	for cv, pi := range convFns {
+		idx := pi
+		dec := core.Guard{Name: "decreasing", Comps: []core.Comp{{Result: -1, Kind: core.IsTrue}}, Pure: true, Value: func(fn *ssa.Function, v ssa.Value) bool { return core.ParamIndex(fn, v) == idx }}
+		inc := core.Guard{Name: "increasing", Comps: []core.Comp{{Result: -1, Kind: core.IsFalse}}, Pure: true, Value: func(fn *ssa.Function, v ssa.Value) bool { return core.ParamIndex(fn, v) == idx }}
+		core.CheckEffectsFn(p, r2, cv, core.EffectRule{Min: 2, Guards: []core.Guard{dec, inc}, Effect: func(_ *core.Prog, in ssa.Instruction) (string, bool) {
+			if isMul(in) {
+				return "multiply", true
+			}
+			if isDiv(in) {
+				return "divide", true
+			}
+			return "", false
+		}, Need: func(d string) []string {
+			if d == "multiply" {
+				return []string{"increasing"}
+			}
+			return []string{"decreasing"}
+		}})
 	}
 	for name, op := range map[string]token.Token{"(pkg/util/precision.converter).toTarget": token.GTR, "(pkg/util/precision.converter).toBase": token.LSS} {
 		fn := p.Func(name)
@@ -58,9 +101,15 @@ func runC39(p *core.Prog, r *core.Report) {
 			r.Fatalf("C39.R2: %s not found", name)
 			continue
 		}
-		good := false
-		for _, s := range core.CallSites([]*ssa.Function{fn}, func(s core.Site) bool { return s.Name == "pkg/util/precision.convert" }) {
-			if bo, ok := s.Call.Common().Args[2].(*ssa.BinOp); ok && bo.Op == op {
+		good, found := false, false
+		for _, s := range core.CallSites([]*ssa.Function{fn}, func(s core.Site) bool {
+			cal := core.StaticCallee(s.Call)
+			_, ok := convFns[cal]
+			return ok
+		}) {
+			found = true
+			pi := convFns[core.StaticCallee(s.Call)]
+			if bo, ok := s.Call.Common().Args[pi].(*ssa.BinOp); ok && bo.Op == op {
 				_, px := core.AccessPath(bo.X)
 				_, py := core.AccessPath(bo.Y)
 				if len(px) > 0 && len(py) > 0 && px[len(px)-1] == "base" && py[len(py)-1] == "target" {
@@ -68,6 +117,36 @@ func runC39(p *core.Prog, r *core.Report) {
 				}
 			}
 		}
-		r2.Check(good, name+"#direction", p.Pos(fn.Pos()), "divides exactly when leaving the finer precision", name+" passes the wrong direction flag to convert: amounts are multiplied where they must be divided")
+		if !found {
+			r.Fatalf("C39.R2: %s no longer calls a conversion function (re-anchor the rule)", name)
+			continue
+		}
+		r2.Check(good, name+"#direction", p.Pos(fn.Pos()), "divides exactly when leaving the finer precision", name+" passes the wrong direction flag to the conversion: amounts are multiplied where they must be divided")
+	}
+	// ---------------- R3 rounding: the narrowing division rounds toward minus infinity (never up), and products are not formed in a fixed-width type
+	r3 := r.Rule("C39.R3", "the narrowing division is big.Int.Div (rounds down for every sign); no truncating division and no fixed-width multiplication of amounts", 2)
+	for cv := range convFns {
+		for _, b := range cv.Blocks {
+			for _, in := range b.Instrs {
+				if c, ok := in.(ssa.CallInstruction); ok {
+					switch core.CalleeName(c) {
+					case "(*math/big.Int).Div", "(*math/big.Int).DivMod":
+						r3.OK(core.FuncName(cv)+"#division", p.InstrPos(in), "Euclidean division: the quotient never exceeds the exact ratio")
+					case "(*math/big.Int).Quo", "(*math/big.Int).QuoRem":
+						r3.Bad(core.FuncName(cv)+"#division", p.InstrPos(in), "truncating division (Quo): a negative amount is rounded UP, so converting down and back yields more than the original")
+					case "(*math/big.Int).Mul":
+						r3.OK(core.FuncName(cv)+"#multiplication", p.InstrPos(in), "arbitrary-precision product (narrowing is judged by R1)")
+					}
+				}
+				if bo, ok := in.(*ssa.BinOp); ok && isInt(bo.Type()) {
+					switch bo.Op {
+					case token.QUO:
+						r3.Bad(core.FuncName(cv)+"#division", p.InstrPos(in), "Go's integer `/` truncates toward zero: a negative amount is rounded UP, so converting down and back yields more than the original")
+					case token.MUL:
+						r3.Bad(core.FuncName(cv)+"#multiplication", p.InstrPos(in), "the product is formed in a fixed-width integer without an overflow test: amounts below 2^53 silently wrap")
+					}
+				}
+			}
+		}
 	}
 }
